@@ -371,7 +371,7 @@ def single_model_checks(ctx, rep):
     for _ in range((250 if ctx.tier == 'quick' else 30000) * ctx.scale // ctx.parts):
         a = rng.choice([rng.uniform(0.05, 0.6), rng.uniform(1.1, 2.0), -rng.uniform(0.3, 1.2), rng.uniform(0.9, 0.999)])
         b, c = rng.uniform(-0.9, 0.9), rng.uniform(-2, 2)
-        script = f'Y = {a!r} * Z + {c!r} + 0.5 * Y[-1]\nZ = {b!r} * Y + X'
+        script = f'Y = {a:.12f} * Z + {c:.12f} + 0.5 * Y[-1]\nZ = {b:.12f} * Y + X'
         Model = fsic.build_model(fsic.parse_model(script))
         n = 5
         x = rng.uniform(-1, 1)
